@@ -24,7 +24,7 @@ import os
 import shutil
 import tempfile
 
-from vf.engines.fsfault import Crash, FaultFS, crash_points, restore_tree, snapshot_tree
+from vf.engines.fsfault import Crash, FaultFS, crash_points, report_escapes, restore_tree, selftest_or_inconclusive, snapshot_tree
 
 LEVEL = "fault_enumeration"
 ENGINE = "E3-fsfault"
@@ -130,10 +130,11 @@ class Case:
         ctx = self.ctx
         ctx.count("reopen_checks")
         try:
-            db = self.cls(self.dbdir)
-            keys = db.keys()
-            items = dict(db.items())
-            n = len(db)
+            with self.fs():  # unarmed: containment guard only
+                db = self.cls(self.dbdir)
+                keys = db.keys()
+                items = dict(db.items())
+                n = len(db)
         except Exception as e:
             ctx.violation("reopen-or-read-raised", "reopening / listing the database after the crash raised", self.witness(path, {"exception": repr(e)}))
             return None
@@ -170,8 +171,9 @@ class Case:
         """After recovery the database must be usable: a completed set is readable and persistent."""
         v2 = b"<follow-up>" + bytes(range(40))
         try:
-            db[self.key] = v2
-            ok = db[self.key] == v2 and self.cls(self.dbdir)[self.key] == v2
+            with self.fs():
+                db[self.key] = v2
+                ok = db[self.key] == v2 and self.cls(self.dbdir)[self.key] == v2
         except Exception as e:
             self.ctx.violation("post-recovery-op-raised", "a set after recovery raised", self.witness(path, {"exception": repr(e)}))
             return
@@ -183,12 +185,12 @@ class Case:
     def run_faulted(self, k, plen):
         """Restore pristine, run the faulted op with a crash at (k, plen).  -> fs"""
         restore_tree(self.dbdir, self.pristine)
-        db = self.cls(self.dbdir)
         fs = self.fs()
         if k is not None:
             fs.arm(k, plen)
         with fs:
             try:
+                db = self.cls(self.dbdir)  # recovery on a clean directory: no mutating call expected
                 apply_op(db, self.last)
             except Crash:
                 pass
@@ -229,10 +231,12 @@ class Case:
         ctx = self.ctx
         try:
             # history, executed for real and checked (functional sanity of the model)
-            db = self.cls(self.dbdir)
-            for op in self.ops:
-                apply_op(db, op)
-            if dict(self.cls(self.dbdir).items()) != self.model:
+            with self.fs():
+                db = self.cls(self.dbdir)
+                for op in self.ops:
+                    apply_op(db, op)
+                got = dict(self.cls(self.dbdir).items())
+            if got != self.model:
                 ctx.violation("history-without-crash-wrong", "database differs from the model without any crash", self.witness([]))
                 return
             self.pristine = snapshot_tree(self.dbdir)
@@ -269,6 +273,7 @@ class Case:
                         "calls": [(k, kind, pend) for k, kind, _, pend in count.log], "crash_points": len(pts)})
         finally:
             shutil.rmtree(self.root, ignore_errors=True)
+            report_escapes(ctx, self.case_id)
 
 
 def run_case(ctx, i, depth):
@@ -280,7 +285,9 @@ def run_case(ctx, i, depth):
 
 def run(ctx):
     depth = 1 if ctx.quick else 2
-    for i in ctx.cases(200, 20000):
+    if not selftest_or_inconclusive(ctx):
+        return
+    for i in ctx.cases(300, 20000):
         run_case(ctx, i, depth)
 
 
